@@ -55,13 +55,15 @@ def phases(tier: str) -> List[Dict[str, Any]]:
         return [
             {"name": "aot_eager", "runs": 176, "heavy": True, "timeout": 300, "wall": 110},
             {"name": "fx", "runs": 96, "heavy": True, "timeout": 300, "wall": 60},
-            {"name": "known", "runs": 8, "heavy": True, "timeout": 300, "wall": 60},
+            {"name": "known", "runs": 4, "heavy": True, "timeout": 300, "wall": 60},
+            {"name": "known_fixed", "runs": 3, "explicit": True, "timeout": 600, "wall": 200},
         ]
     return [
         {"name": "aot_eager", "runs": 6000, "heavy": True, "timeout": 400, "wall": 1800},
         {"name": "inductor", "runs": 400, "heavy": True, "timeout": 900, "wall": 1500},
         {"name": "fx", "runs": 3000, "heavy": True, "timeout": 300, "wall": 600},
         {"name": "known", "runs": 32, "heavy": True, "timeout": 300, "wall": 120},
+        {"name": "known_fixed", "runs": 3, "explicit": True, "timeout": 600, "wall": 200},
     ]
 
 
@@ -180,6 +182,26 @@ def generate(seed: int, tier: str, phase: str) -> Dict[str, Any]:
             ops.append(_gen_call(r, dtypes))
     plan["ops"] = ops
     return plan
+
+
+def explicit_plans(tier: str, phase: str) -> List[Dict[str, Any]]:
+    """Deterministic probes of two recorded findings (plans copied from minimised replays)."""
+    kn = {"recompile_limit": 8, "automatic_dynamic": True, "dynamic": None, "fullgraph": True}
+    d14 = {"phase": "aot_eager", "kind": "chain", "timeout": 300, "shrink_budget": 0, "knobs": dict(kn),
+           "atoms": [{"atom": "sdpa", "causal": True, "mult": 1.0, "proj": True},
+                     {"atom": "silu", "constraint": None, "mult": 4.0}],
+           "ops": [{"op": "call", "batch": [3, 2], "D": 4, "dtype": "float64", "mode": "fwd", "mask": 2, "tseed": 63938711},
+                   {"op": "call", "batch": [2, 3], "D": 8, "dtype": "float64", "mode": "fwd", "mask": 58, "tseed": 235322127}]}
+    d15 = {"phase": "inductor", "kind": "chain", "timeout": 600, "shrink_budget": 0,
+           "knobs": dict(kn, fullgraph=False),
+           "atoms": [{"atom": "matmul", "dout": 4, "constraint": None}],
+           "tail": {"kind": "split", "tau": 0.5, "s": 2.0},
+           "ops": [{"op": "call", "batch": [3], "D": 6, "dtype": "float32", "mode": "bwd", "mask": 16, "tseed": 963036914}]}
+    d12 = {"phase": "known", "kind": "fn", "timeout": 300, "shrink_budget": 0,
+           "knobs": dict(kn, dynamic=True, fullgraph=False),
+           "atoms": [{"atom": "linear_readout", "bias": False, "constraint": "to_grad_input_scale", "dout": 3}],
+           "ops": [{"op": "call", "batch": [2], "D": 6, "dtype": "float32", "mode": "bwd", "mask": 61, "tseed": 657959300}]}
+    return [d12, d14, d15]
 
 
 # ------------------------------------------------------------------------------------
